@@ -89,13 +89,13 @@ func checkC09(c *Ctx) {
 	for _, f := range roots {
 		a := E.Analyze(f)
 		if a != nil && a.Converged {
-			r.OK("R0.roots", fnName(f), P.Rel(f.Pos()), "root analysed", fmt.Sprintf("%d blocks", len(f.Blocks)), false)
+			r.OK("R0.roots", guardFnName(f), P.Rel(f.Pos()), "root analysed", fmt.Sprintf("%d blocks", len(f.Blocks)), false)
 		} else {
-			r.Unknown("R0.roots", fnName(f), P.Rel(f.Pos()), "root analysed", "dataflow did not converge")
+			r.Unknown("R0.roots", guardFnName(f), P.Rel(f.Pos()), "root analysed", "dataflow did not converge")
 		}
 	}
 	// recursion among the reachable functions would break the linear-time argument
-	for _, cyc := range callCycles(E, scope) {
+	for _, cyc := range guardCallCycles(E, scope) {
 		r.Unknown("R2.progress", "recursion "+cyc, "", "no recursion among decoder functions", "call-graph cycle: "+cyc)
 	}
 	c09NoInputWrite(c)
@@ -103,8 +103,8 @@ func checkC09(c *Ctx) {
 	r.Trusted = []string{"go/packages, go/types, go/ssa, callgraph/vta", "the trusted-total table of extern callees (internal/guards/extern.go)"}
 }
 
-// callCycles: strongly connected components with a cycle among the functions in scope.
-func callCycles(E *guards.Engine, scope []*ssa.Function) []string {
+// guardCallCycles: strongly connected components with a cycle among the functions in scope.
+func guardCallCycles(E *guards.Engine, scope []*ssa.Function) []string {
 	in := map[*ssa.Function]bool{}
 	for _, f := range scope {
 		in[f] = true
@@ -157,7 +157,7 @@ func callCycles(E *guards.Engine, scope []*ssa.Function) []string {
 				x := stack[len(stack)-1]
 				stack = stack[:len(stack)-1]
 				on[x] = false
-				comp = append(comp, fnName(x))
+				comp = append(comp, guardFnName(x))
 				if x == f {
 					break
 				}
@@ -187,7 +187,7 @@ func c09NoInputWrite(c *Ctx) {
 func dumpGuards(P *load.Program, args []string) {
 	E := guardsEngine(P)
 	roots := c09DecoderRoots(P)
-	if rs := extraDumpRoots(P); len(rs) > 0 {
+	if rs := guardExtraDumpRoots(P); len(rs) > 0 {
 		roots = append(roots, rs...)
 	}
 	for _, f := range roots {
@@ -212,9 +212,9 @@ func dumpGuards(P *load.Program, args []string) {
 			c[0]++
 			if o.Status != guards.Proved {
 				c[1]++
-				fmt.Printf("FAIL %-9s %s %s\n      %s\n", o.Kind, P.Rel(o.Pos()), oblKey(o), o.Why)
+				fmt.Printf("FAIL %-9s %s %s\n      %s\n", o.Kind, P.Rel(o.Pos()), guardOblKey(o), o.Why)
 			} else if len(args) > 1 {
-				fmt.Printf("ok   %-9s %s %s\n      %s\n", o.Kind, P.Rel(o.Pos()), oblKey(o), o.Why)
+				fmt.Printf("ok   %-9s %s %s\n      %s\n", o.Kind, P.Rel(o.Pos()), guardOblKey(o), o.Why)
 			}
 			counts[o.Kind] = c
 		}
@@ -243,7 +243,7 @@ func dumpGuards(P *load.Program, args []string) {
 	}
 }
 
-// extraDumpRoots lets `LWROOTS=pkg.Func,…` add roots to the debugging dump.
-func extraDumpRoots(P *load.Program) []*ssa.Function {
-	return rootsFromEnv(P)
+// guardExtraDumpRoots lets `LWROOTS=pkg.Func,…` add roots to the debugging dump.
+func guardExtraDumpRoots(P *load.Program) []*ssa.Function {
+	return guardRootsFromEnv(P)
 }
